@@ -452,7 +452,7 @@ def c17_armour(opts):
                "signature with its header byte replaced by each of the 256 values; r or s in {0, n, n+1, 2^256-1}; s+n (when "
                "< 2^256, crafted small s); r = x-coordinates without a curve point (seeded, ~half of all x) under all 8 headers; "
                "r with a point under all 8 headers (recid 2/3 variants: r+n >= p, unrecoverable); decoded lengths {0,1,32,64,66,"
-               "97,130}; malformed base64 (bad padding, 1 mod 4 length, illegal characters, whitespace, embedded newline); non-"
+               "97,130} and the genuine signature with bytes appended / prepended / cut; malformed base64 (bad padding, 1 mod 4 length, illegal characters, whitespace, embedded newline); non-"
                "ASCII text; bytes instead of str.  Targets: private key object, public key object, address; networks BTC, XTN, "
                "LTC, DOGE.  quick: 1 key per network x 12 seeded r per class; thorough: 4 keys x 150")
 def c17_totality(opts):
@@ -514,6 +514,9 @@ def c17_totality(opts):
             inputs.append(("genuine-with-recid+2", make_sig(gh + 2 if (gh - 27) & 3 < 2 else gh, gr, gs)))
             for ln in (0, 1, 32, 64, 66, 97, 130):
                 inputs.append(("wrong-length", b64(bytes([gh]) + bytes(rng.getrandbits(8) for _ in range(max(0, ln - 1))) if ln else b"")))
+            # the genuine 65 bytes followed / preceded by extra bytes, or cut short: not a signature
+            for extra in (good + b"\0", good + good, good[:64], b"\0" + good, good + bytes([gh])):
+                inputs.append(("wrong-length", b64(extra)))
             good_text = b64(good)
             inputs += [("malformed-base64", x) for x in
                        ["abc", "a", "ab", "abcde", good_text[:-1], good_text[:-2], good_text + "=", good_text + "A", "!!!!", "====", "=" + good_text,
